@@ -226,9 +226,12 @@ func K6(variant int) *Entry {
 		return &Entry{Name: "k6b", File: f, Cfg: BaseConfig("Policy"), Tags: []string{"embed?", "embed?-temporal-only"}}
 	case 3:
 		// embedded messages without fields (by value first in the declaration order, nullable inside a nested message); sort off
-		holder := M("Marked", F("Marker", MsgT("Void"), NonNull(), Embed()), F("Name"), F("Count", Sc(ir.Int64)), F("Sub", MsgT("MarkedSub")), F("Subs", MsgT("MarkedSub"), Rep(), NonNull()))
+		holder := M("Marked", F("Marker", MsgT("Void"), NonNull(), Embed()), F("Name"), F("Count", Sc(ir.Int64)), F("Sub", MsgT("MarkedSub")), F("Subs", MsgT("MarkedSub"), Rep(), NonNull()),
+			// ... and a nested message that declares such an embed before its own fields
+			F("Lead", MsgT("MarkedLead")), F("Leads", MsgT("MarkedLead"), Rep()), F("LeadValue", MsgT("MarkedLead"), NonNull()))
 		sub := M("MarkedSub", F("SubName"), F("Flag", MsgT("Void2"), Embed()), F("SubCount", Sc(ir.Int32)))
-		f := file("k6d", holder, sub, M("Void"), M("Void2"))
+		lead := M("MarkedLead", F("Mark", MsgT("Void"), NonNull(), Embed()), F("LeadName"), F("LeadCount", Sc(ir.Int32)))
+		f := file("k6d", holder, sub, lead, M("Void"), M("Void2"))
 		AutoComments(f)
 		c := BaseConfig("Marked")
 		c.Sort, c.SortSet = false, true
